@@ -248,6 +248,12 @@ class Evaluator:
                     return None
                 if isinstance(f, ast.Attribute) and f.attr in self.ignore_calls:
                     return None
+                # sequence accumulation on a local: xs.append(v) / xs.extend(vs) (sequences are modelled as tuples)
+                if isinstance(f, ast.Attribute) and f.attr in ("append", "extend") and isinstance(f.value, ast.Name) and isinstance(self.env.get(f.value.id), tuple) \
+                        and len(st.value.args) == 1 and not st.value.keywords:
+                    v = self.ev(st.value.args[0])
+                    self.env[f.value.id] = self.env[f.value.id] + ((v,) if f.attr == "append" else tuple(v))
+                    return None
                 if self.call_hook is not None and self.call_hook(st.value, self):
                     return None
             raise Unsupported(st)
